@@ -99,7 +99,7 @@ def math_call(ex, st, name, args):
     if name in ('round', 'roundf'):
         x = real(a[0])
         return RealV(z3.If(x >= 0, z3.ToReal(z3.ToInt(x + Rv(Fraction(1, 2)))), -z3.ToReal(z3.ToInt(-x + Rv(Fraction(1, 2))))), DOUBLE)
-    if name in ('lround', 'lroundf'):
+    if name in ('lround', 'lroundf', 'llround', 'llroundf'):
         x = real(a[0])
         r = z3.If(x >= 0, z3.ToInt(x + Rv(Fraction(1, 2))), -z3.ToInt(-x + Rv(Fraction(1, 2))))
         # C11 7.12.9.7: a rounded value outside the range of long gives an unspecified result (domain error), not
